@@ -559,7 +559,7 @@ def main(chk: Check):
     cases = [("(%s %s)" % (ctor[n], per_stream[n][i][0]), per_stream[n][i][1]) for n, i in allc]
     corr_bad, spec_bad = [], []
     if ok:
-        shard = int(os.environ.get("C12_SHARD", str(chk.n(1200, 2500))))
+        shard = int(os.environ.get("C12_SHARD", str(chk.n(1600, 2500))))
         r = chk.coq_eval("all", IMPORTS, "case_in", cases,
                          ["mismatches run_case cases",
                           "where_ (fun i r => negb (spec_case_ok i r)) cases",
